@@ -108,6 +108,23 @@ func drawQuery(x *simkit.Exec, ds *dataset, tag string) query {
 		} else {
 			q.Matchers[0] = labels.MustNewMatcher(labels.MatchEqual, lb.Name, lb.Value)
 		}
+		// a second selector with keys on the same series (several posting groups: what lazy
+		// expanded postings choose between)
+		if x.Bool(tag+".anchor2", 1, 2) {
+			lb2 := ls[x.Draw(tag+".anchorlabel2", len(ls))]
+			var m2 *labels.Matcher
+			switch x.Draw(tag+".anchor2kind", 4) {
+			case 0:
+				m2 = labels.MustNewMatcher(labels.MatchEqual, lb2.Name, lb2.Value)
+			case 1:
+				m2 = labels.MustNewMatcher(labels.MatchRegexp, lb2.Name, regexp.QuoteMeta(lb2.Value)+"|"+regexp.QuoteMeta(valuePool[x.Draw(tag+".anchoralt2", len(valuePool))]))
+			case 2:
+				m2 = labels.MustNewMatcher(labels.MatchNotEqual, lb2.Name, valuePool[x.Draw(tag+".anchoralt2", len(valuePool))])
+			default:
+				m2 = labels.MustNewMatcher(labels.MatchRegexp, lb2.Name, ".+")
+			}
+			q.Matchers = append(q.Matchers, m2)
+		}
 	}
 	q.MinT, q.MaxT = drawTimeRange(x, ds, tag)
 	q.RespBatch = []int64{0, 1, 3}[x.Draw(tag+".respbatch", 3)]
@@ -232,6 +249,7 @@ func runC10(x *simkit.Exec) {
 		if s.Stuck() {
 			x.Troublef("c10: scheduler stuck, parked=%v", s.ParkedIDs())
 		}
+		g.reachProbes()
 		if g.cache != nil {
 			x.ProbeN("c10.cache_hits", int(g.cache.hits.Load()))
 			x.ProbeN("c10.cache_misses", int(g.cache.miss.Load()))
